@@ -399,7 +399,7 @@ ADDED13 = {
  "C13": "(U11) every tfNew* result in tformFrBuffer has its step stamp set to 0 in the same block.",
  "C16": "(M14) every formatted escape of ccoPrToken is a three-digit octal escape, in both C dialects.",
  "C17": "(R11) the candidate tests of fileRdFind call, directly or through helpers of path.c, only predicates that do not look at size or content.",
- "C20": "(V17) inside a counted loop of table.c a bucket array is indexed only up to its own table's bucket count (T->buckc, or the count T was made with); (V18) a branch of a parameter node is read only under a not-a-leaf test or the parameter requires an inner node, every call supplies one, and no non-static function requires one.",
+ "C20": "(V17) inside a counted loop of table.c a bucket array is indexed only up to its own table's bucket count (T->buckc, or the count T was made with); (V18) a branch of a parameter node is read only under a not-a-leaf test or the parameter requires an inner node, every call supplies one, and no non-static function requires one; (V19) no query operation of table.c stores into a chain link or bucket head (tblElt does: known finding).",
 }
 for _pid, _t in ADDED13.items():
     CLAIMED[_pid]["text"] += " Round 13: " + _t
